@@ -60,7 +60,8 @@ def run(ctx):
                        "forms x 12 format selectors), D (filename/download), I (If-Modified-Since), P (CAR parameters via URL and "
                        "Accept), R (IPNS records). G2: every history of %d steps over Publish/Fetch/Reval with %s. non-trivial = "
                        "request whose ideal response is a 304, an error/redirect, a non-default format, or that exercises a deviation; "
-                       "history with a Reval after a Publish or across two Accept classes" %
+                       "history with a Reval after a Publish or across two Accept classes. T: seeded random client session of "
+                       "700 / 6000 requests over all families, versions, names and configs with validators from real responses" %
                        ((3, "3 kinds x 3 Accept classes") if q else (3, "4 kinds x 5 Accept classes, plus 4 steps over 2x2")))
     # ---- M (non-vacuity control): with the as-built candidate rule a URL-keyed cache becomes incoherent
     ctl = ctx.tlc_mc(SPEC, "GatewayCond.tla", "MCGatewayCondAsBuilt.cfg", timeout=1200, deadlock=False,
@@ -97,7 +98,9 @@ def run(ctx):
     hists = []
     for n, kw in enumerate(hruns):
         hcfg = mkcfg(ctx, "GenHistGatewayCond.cfg.in", "gen_hist%d.cfg" % n, DEVS=tset(devs), **kw)
-        hres = ctx.tlc_mc(SPEC, "GenHistGatewayCond.tla", hcfg, timeout=3000, deadlock=False, workers=6 if q else 12)
+        # -coverage on the small 4-step run of the thorough tier: Publish, Fetch and Reval must all be taken
+        hres = ctx.tlc_mc(SPEC, "GenHistGatewayCond.tla", hcfg, timeout=3000, deadlock=False, workers=6 if q else 12,
+                          coverage=(not q and n == 1))
         if not hres["ok"]:
             return
         hs = parse_beh(hres["out"])
